@@ -5,6 +5,8 @@ mod fam_a;
 mod fam_b;
 mod fam_c;
 mod fam_d;
+mod fam_e;
+mod fam_f;
 mod hist;
 mod json;
 mod oracle_a;
@@ -22,11 +24,13 @@ pub struct Outcome {
     pub desc: J,
     pub h: Option<Hist>,
     pub v: Verdicts,
+    /// families that enumerate a finite space use the enumeration index as identity
+    pub fp_override: Option<u64>,
 }
 
 impl Outcome {
     pub fn new(desc: J, h: Hist, v: Verdicts) -> Outcome {
-        Outcome { desc, h: Some(h), v }
+        Outcome { desc, h: Some(h), v, fp_override: None }
     }
 }
 
@@ -46,16 +50,20 @@ fn family_props(f: &str) -> &'static [&'static str] {
         "B" => &["C04", "C15", "C01", "C02", "C18"],
         "C" => &["C05", "C06", "C02", "C18"],
         "D" => &["C09", "C10", "C14", "C16", "C03"],
+        "E" => &["C11", "C01", "C18"],
+        "F" => &["C12"],
         _ => &[],
     }
 }
 
-fn run_one(family: &str, seed: u64, tiny: bool, focus: &str) -> Outcome {
+fn run_one(family: &str, seed: u64, tiny: bool, focus: &str, base_seed: u64, index: u64) -> Outcome {
     match family {
         "A" => fam_a::run(seed, tiny, focus),
         "B" => fam_b::run(seed, tiny, focus),
         "C" => fam_c::run(seed, tiny, focus),
         "D" => fam_d::run(seed, tiny, focus),
+        "E" => fam_e::run(seed, tiny, focus),
+        "F" => fam_f::run(base_seed, index, tiny),
         _ => panic!("unknown family {}", family),
     }
 }
@@ -91,7 +99,7 @@ fn main() {
         let sseed = mix(mix(seed, family.bytes().fold(7u64, |a, b| a * 131 + b as u64)), i);
         let fam = family.clone();
         let foc = focus.clone();
-        let res = watchdog::supervise(move || run_one(&fam, sseed, tiny, &foc));
+        let res = watchdog::supervise(move || run_one(&fam, sseed, tiny, &foc, seed, i));
         let out = match res {
             Ok(o) => o,
             Err(stuck) => {
@@ -100,7 +108,7 @@ fn main() {
             }
         };
         done += 1;
-        let fp = out.h.as_ref().map(|h| h.fingerprint()).unwrap_or(sseed);
+        let fp = out.fp_override.unwrap_or_else(|| out.h.as_ref().map(|h| h.fingerprint()).unwrap_or(sseed));
         events += out.h.as_ref().map(|h| h.evs.len() as u64).unwrap_or(0);
         for (k, n) in &out.v.counters {
             let e = counters.entry(k.clone()).or_insert(0);
